@@ -180,7 +180,7 @@ def check_text(ctx, text, origin, ntok, floor_tokens):
     ctx.hit('parse')
     ctx.hit('refjs')
     nontrivial = ntok >= floor_tokens
-    if work.uncertain(s.ref):
+    if work.uncertain(s.ref, s.ref_err):
         ctx.count('oracle_uncertain')
         ctx.case(text, False)
         return None
@@ -202,7 +202,7 @@ def check_text(ctx, text, origin, ntok, floor_tokens):
                 s2 = work.both(t)
             except RecursionError:
                 return False
-            if work.uncertain(s2.ref):
+            if work.uncertain(s2.ref, s2.ref_err):
                 return False
             j = judge(s2)
             return j is not None and j[0] == mech
@@ -267,12 +267,12 @@ def replay(ctx, witness):
     s = work.both(text)
     ctx.hit('parse')
     v = judge(s)
-    if v and not work.uncertain(s.ref):
+    if v and not work.uncertain(s.ref, s.ref_err):
         ctx.violation(v[0], {'text': text}, v[1] + '\ninput: %r' % text)
     if witness.get('original'):
         s = work.both(witness['original'])
         v = judge(s)
-        if v and not work.uncertain(s.ref):
+        if v and not work.uncertain(s.ref, s.ref_err):
             ctx.violation(v[0], {'text': witness['original']}, v[1])
 
 
